@@ -41,10 +41,13 @@ LibTypes(p, t) ==
       [] OTHER -> {}
 LibFile(name, ty) == IF ty = "static" THEN "lib" \o name \o ".a" ELSE "lib" \o name \o ".so"
 
+\* the ninja name of a run / alias target; inside a subproject it is qualified (the manual is silent on the
+\* form; `<subproject>@@<name>` is what `meson compile <subproject>@@<name>` addresses)
+RunName(t) == IF t.sp = "" THEN t.name ELSE t.sp \o "@@" \o t.name
 FileNames(p, t) ==
     CASE t.kind = "exe" -> {t.name}
       [] t.kind = "custom" -> Rng(t.outs)
-      [] IsRunLike(t) -> {t.name}
+      [] IsRunLike(t) -> {RunName(t)}
       [] OTHER -> {LibFile(t.name, ty) : ty \in LibTypes(p, t)}
 OutPaths(p, t) == {Join(OutDir(p, t), f) : f \in FileNames(p, t)}
 \* the files of a target as intro-targets.json lists them (run-like targets have no file)
@@ -53,7 +56,7 @@ FilePaths(p, t) == IF IsRunLike(t) THEN {} ELSE OutPaths(p, t)
 \* what a reference to a target (link_with, depends, test args) needs: a both-library stands for its
 \* default (shared) half - Builtin-options.md, default_both_libraries = shared
 RefOuts(p, t) ==
-    IF IsRunLike(t) THEN {}
+    IF IsRunLike(t) THEN OutPaths(p, t)
     ELSE IF Cardinality(LibTypes(p, t)) = 2 THEN {Join(OutDir(p, t), LibFile(t.name, "shared"))}
     ELSE OutPaths(p, t)
 
@@ -124,10 +127,10 @@ TargetEdges(p, t) ==
     CASE IsBuild(t) -> CompileEdges(p, t) \cup LinkEdges(p, t)
       [] t.kind = "custom" -> {E("CUSTOM_COMMAND", <<Src(t, "input")>>, <<"@tool">> \o SetToSeq(DepOuts(p, t)), <<>>,
                                  [k \in DOMAIN t.outs |-> Join(OutDir(p, t), t.outs[k])])}
-      [] t.kind = "run" -> {E("phony", <<"meson-internal__" \o t.name>>, <<>>, <<>>, <<t.name>>),
+      [] t.kind = "run" -> {E("phony", <<"meson-internal__" \o RunName(t)>>, <<>>, <<>>, <<RunName(t)>>),
                             E("CUSTOM_COMMAND", <<>>, <<"@tool">> \o SetToSeq(DepOuts(p, t)), <<>>,
-                              <<"meson-internal__" \o t.name>>)}
-      [] t.kind = "alias" -> {E("phony", SetToSeq(DepOuts(p, t)), <<>>, <<>>, <<t.name>>)}
+                              <<"meson-internal__" \o RunName(t)>>)}
+      [] t.kind = "alias" -> {E("phony", SetToSeq(DepOuts(p, t)), <<>>, <<>>, <<RunName(t)>>)}
 First(S) == IF S = {} THEN {} ELSE {CHOOSE x \in S : TRUE}
 Aggregates(p) ==
     {E("phony", SetToSeq(ExpectAll(p)), <<>>, <<>>, <<"all">>),
